@@ -43,7 +43,7 @@ def gen_cases(rnd, n):
             else:
                 q['items'].append({'e': ['nr']})
         if rnd.random() < 0.15 and not any(isinstance(i, dict) and 'unnest' in i for i in q['items']):
-            q['items'].append({'unnest': ['split', ['a', rnd.randrange(ncols)], ';']})
+            q['items'].append({'unnest': [rnd.choice(['split', 'splitne']), ['a', rnd.randrange(ncols)], ';']})
         if rnd.random() < 0.3:
             q['where'] = qgen.gen_bool_expr(rnd, ncols - 1, 1)
         r = rnd.random()
